@@ -22,16 +22,6 @@ impl Backend {
     }
 }
 
-pub struct Material {
-    /// [tls13, tls12]
-    pub native_conn: [TlsConnector; 2],
-    pub native_acc: [TlsAcceptor; 2],
-    pub rustls_conn: [TlsConnector; 2],
-    pub rustls_acc: [TlsAcceptor; 2],
-}
-
-static MATERIAL: OnceLock<Material> = OnceLock::new();
-
 fn read(dir: &Path, name: &str) -> Vec<u8> {
     let p = dir.join("fixtures").join("tls").join(name);
     match std::fs::read(&p) {
@@ -43,83 +33,78 @@ fn read(dir: &Path, name: &str) -> Vec<u8> {
     }
 }
 
-pub fn material(verif_dir: &Path) -> &'static Material {
-    MATERIAL.get_or_init(|| build(verif_dir))
+struct Pems {
+    ca: Vec<u8>,
+    leaf: Vec<u8>,
+    key: Vec<u8>,
 }
 
-fn build(dir: &Path) -> Material {
-    let ca = read(dir, "ca.cert.pem");
-    let leaf = read(dir, "leaf.cert.pem");
-    let key = read(dir, "leaf.key.pem");
+static PEMS: OnceLock<Pems> = OnceLock::new();
 
-    // ---- native-tls (OpenSSL): identity straight from the PEM pair, CA via add_root_certificate
-    let mk_native_acc = |tls12: bool| {
-        let id = native_tls::Identity::from_pkcs8(&leaf, &key).expect("native identity from fixture PEMs");
-        let mut b = native_tls::TlsAcceptor::builder(id);
-        if tls12 {
-            b.max_protocol_version(Some(native_tls::Protocol::Tlsv12));
-        }
-        TlsAcceptor::from(b.build().expect("native acceptor"))
-    };
-    let mk_native_conn = |tls12: bool| {
-        let mut b = native_tls::TlsConnector::builder();
-        b.add_root_certificate(native_tls::Certificate::from_pem(&ca).expect("fixture CA"));
-        if tls12 {
-            b.max_protocol_version(Some(native_tls::Protocol::Tlsv12));
-        }
-        TlsConnector::from(b.build().expect("native connector"))
-    };
+fn pems(verif_dir: &Path) -> &'static Pems {
+    PEMS.get_or_init(|| Pems { ca: read(verif_dir, "ca.cert.pem"), leaf: read(verif_dir, "leaf.cert.pem"), key: read(verif_dir, "leaf.key.pem") })
+}
 
-    // ---- rustls (ring): custom root store holding only the fixture CA
-    let provider = Arc::new(rustls::crypto::ring::default_provider());
-    let versions = |tls12: bool| -> &'static [&'static rustls::SupportedProtocolVersion] {
-        if tls12 {
-            &[&rustls::version::TLS12]
-        } else {
-            &[&rustls::version::TLS13]
-        }
-    };
-    let leaf_der = CertificateDer::from_pem_slice(&leaf).expect("leaf pem");
-    let ca_der = CertificateDer::from_pem_slice(&ca).expect("ca pem");
-    let mk_rustls_acc = |tls12: bool| {
-        let cfg = rustls::ServerConfig::builder_with_provider(provider.clone())
-            .with_protocol_versions(versions(tls12))
-            .expect("versions")
-            .with_no_client_auth()
-            .with_single_cert(vec![leaf_der.clone()], PrivateKeyDer::from_pem_slice(&key).expect("key pem"))
-            .expect("rustls server config");
-        TlsAcceptor::from(Arc::new(cfg))
-    };
-    let mk_rustls_conn = |tls12: bool| {
-        let mut store = rustls::RootCertStore::empty();
-        store.add(ca_der.clone()).expect("add fixture CA");
-        let cfg = rustls::ClientConfig::builder_with_provider(provider.clone())
-            .with_protocol_versions(versions(tls12))
-            .expect("versions")
-            .with_root_certificates(store)
-            .with_no_client_auth();
-        TlsConnector::from(Arc::new(cfg))
-    };
-    Material {
-        native_conn: [mk_native_conn(false), mk_native_conn(true)],
-        native_acc: [mk_native_acc(false), mk_native_acc(true)],
-        rustls_conn: [mk_rustls_conn(false), mk_rustls_conn(true)],
-        rustls_acc: [mk_rustls_acc(false), mk_rustls_acc(true)],
+static V12: [&rustls::SupportedProtocolVersion; 1] = [&rustls::version::TLS12];
+// "not forced to 1.2" = best available: native-tls acceptors (OpenSSL mozilla_intermediate v4) stop at TLS 1.2
+static VBEST: [&rustls::SupportedProtocolVersion; 2] = [&rustls::version::TLS13, &rustls::version::TLS12];
+
+fn versions(tls12: bool) -> &'static [&'static rustls::SupportedProtocolVersion] {
+    if tls12 {
+        &V12
+    } else {
+        &VBEST
     }
 }
 
-impl Material {
-    pub fn connector(&self, b: Backend, tls12: bool) -> TlsConnector {
-        match b {
-            Backend::Native => self.native_conn[tls12 as usize].clone(),
-            Backend::Rustls => self.rustls_conn[tls12 as usize].clone(),
+/// A fresh connector for one case: no session cache or ticket state is shared between cases; only
+/// the PEM bytes are read once per process.
+pub fn connector(verif_dir: &Path, b: Backend, tls12: bool) -> TlsConnector {
+    let p = pems(verif_dir);
+    match b {
+        // native-tls (OpenSSL): CA via add_root_certificate, full verification stays on
+        Backend::Native => {
+            let mut b = native_tls::TlsConnector::builder();
+            b.add_root_certificate(native_tls::Certificate::from_pem(&p.ca).expect("fixture CA"));
+            if tls12 {
+                b.max_protocol_version(Some(native_tls::Protocol::Tlsv12));
+            }
+            TlsConnector::from(b.build().expect("native connector"))
+        }
+        // rustls (ring): custom root store holding only the fixture CA
+        Backend::Rustls => {
+            let mut store = rustls::RootCertStore::empty();
+            store.add(CertificateDer::from_pem_slice(&p.ca).expect("ca pem")).expect("add fixture CA");
+            let cfg = rustls::ClientConfig::builder_with_provider(Arc::new(rustls::crypto::ring::default_provider()))
+                .with_protocol_versions(versions(tls12))
+                .expect("versions")
+                .with_root_certificates(store)
+                .with_no_client_auth();
+            TlsConnector::from(Arc::new(cfg))
         }
     }
+}
 
-    pub fn acceptor(&self, b: Backend, tls12: bool) -> TlsAcceptor {
-        match b {
-            Backend::Native => self.native_acc[tls12 as usize].clone(),
-            Backend::Rustls => self.rustls_acc[tls12 as usize].clone(),
+pub fn acceptor(verif_dir: &Path, b: Backend, tls12: bool) -> TlsAcceptor {
+    let p = pems(verif_dir);
+    match b {
+        // identity straight from the PEM pair (PKCS#8 key)
+        Backend::Native => {
+            let id = native_tls::Identity::from_pkcs8(&p.leaf, &p.key).expect("native identity from fixture PEMs");
+            let mut b = native_tls::TlsAcceptor::builder(id);
+            if tls12 {
+                b.max_protocol_version(Some(native_tls::Protocol::Tlsv12));
+            }
+            TlsAcceptor::from(b.build().expect("native acceptor"))
+        }
+        Backend::Rustls => {
+            let cfg = rustls::ServerConfig::builder_with_provider(Arc::new(rustls::crypto::ring::default_provider()))
+                .with_protocol_versions(versions(tls12))
+                .expect("versions")
+                .with_no_client_auth()
+                .with_single_cert(vec![CertificateDer::from_pem_slice(&p.leaf).expect("leaf pem")], PrivateKeyDer::from_pem_slice(&p.key).expect("key pem"))
+                .expect("rustls server config");
+            TlsAcceptor::from(Arc::new(cfg))
         }
     }
 }
